@@ -71,6 +71,8 @@ type hist struct {
 	log     []opLog
 	dead    bool // a violation was reported: stop
 	benign  bool // a mostly well-behaved population: long chains with occasional attacks
+	alias   bool // the storage's RefreshTokenRequest aliases the stored token (vstore.AliasRefresh), as the example storage does
+	follow  *tok // the next refresh is a plain request of the owner with this token (it follows a scope refusal)
 	jwtOK   string
 	jwtBad  string
 	sigKey  *keys.Key
@@ -123,6 +125,7 @@ func newHist(run *ev.Run, caseIdx, router int) *hist {
 	h := &hist{run: run, caseIdx: caseIdx, router: router, rn: opdrv.RouterNames[router], r: run.CaseRand(7, caseIdx), dereg: map[string]bool{}}
 	h.allOff = h.r.IntN(12) == 0
 	h.benign = h.r.IntN(3) == 0
+	h.alias = h.r.IntN(3) == 0
 	cfg := opdrv.DefaultConfig()
 	cfg.GrantTypeRefreshToken = !h.allOff
 	// the provider's signing key: mostly ES256 (cheap), RS256 for one history in eight
@@ -131,6 +134,7 @@ func newHist(run *ev.Run, caseIdx, router int) *hist {
 		h.sigKey = keys.Get("op-sig-1", jose.RS256)
 	}
 	h.w = opdrv.MustWorld(opdrv.Options{Config: cfg, Caps: vstore.Full, SigningKey: h.sigKey})
+	h.w.Store.AliasRefresh = h.alias
 	h.cl = setup(h.w)
 	return h
 }
@@ -339,7 +343,9 @@ func (h *hist) entitled(c cred) []string {
 	return out
 }
 
-func hasGrant(c *vclient.Client, g oidc.GrantType) bool { return c != nil && slices.Contains(c.Grants, g) }
+func hasGrant(c *vclient.Client, g oidc.GrantType) bool {
+	return c != nil && slices.Contains(c.Grants, g)
+}
 
 // ---------- harness-side events ----------
 
@@ -389,7 +395,14 @@ func (h *hist) refresh() {
 		}
 	}
 	calm := func() bool { return h.benign && r.IntN(5) != 0 }
-	if calm() {
+	follow := h.follow
+	h.follow = nil
+	if follow != nil && !follow.live {
+		follow = nil
+	}
+	if follow != nil {
+		t = follow
+	} else if calm() {
 		// keep the default: a current token
 	} else if c := r.IntN(100); c < 9 {
 		tokKind = pick(r, "unknown:garbage", "unknown:nearmiss", "unknown:access-token", "unknown:missing", "unknown:suffix")
@@ -443,10 +456,13 @@ func (h *hist) refresh() {
 	owner := ref.ch.client
 	// --- the presenter and its credentials ---
 	presenter := owner
-	if r.IntN(100) < 28 && !calm() {
+	if follow == nil && r.IntN(100) < 28 && !calm() {
 		presenter = pick(r, presenterIDs...)
 	}
 	cr := h.genCred(presenter, owner)
+	for i := 0; i < 40 && follow != nil && !cr.plain; i++ {
+		cr = h.genCred(presenter, owner)
+	}
 	for i := 0; i < 4 && !cr.plain && h.cl[presenter] != nil && calm(); i++ {
 		cr = h.genCred(presenter, owner)
 	}
@@ -455,10 +471,13 @@ func (h *hist) refresh() {
 	for i := 0; i < 4 && !plainScopeKinds[scopeKind] && calm(); i++ {
 		scopeKind, scopePresent, scopeVal = genScope(r, ref.granted, ref.ch.origin)
 	}
+	for i := 0; i < 40 && follow != nil && !plainScopeKinds[scopeKind]; i++ {
+		scopeKind, scopePresent, scopeVal = genScope(r, ref.granted, ref.ch.origin)
+	}
 	// --- provider support ---
 	w := h.w
 	enabled := !h.allOff
-	if enabled && r.IntN(14) == 0 && !calm() {
+	if enabled && follow == nil && r.IntN(14) == 0 && !calm() {
 		w, enabled = h.offWorld(), false
 	}
 
@@ -473,6 +492,11 @@ func (h *hist) refresh() {
 		form.Set("client_id", cr.formID)
 	}
 	liveBefore := t != nil && h.w.Store.RefreshLive(t.s)
+	var storedBefore []string
+	if t != nil {
+		rec, _ := h.w.Store.RefreshRecord(t.s)
+		storedBefore = rec.Scopes
+	}
 	resp := w.Token(h.router, form, cr.auth)
 	journal := h.w.Store.JournalSince(resp.SeqStart)
 	h.run.Eval()
@@ -555,7 +579,7 @@ func (h *hist) refresh() {
 	if pos > 3 {
 		pos = 3
 	}
-	h.run.Distinct(fmt.Sprintf("%s|%v|%s|%s|%s|%s|%s|%s|%s|%d|%v", h.rn, enabled, ref.ch.via, h.cl[owner].Auth, rel, pauth, cr.kind, tokKind, scopeKind, pos, h.dereg[owner]))
+	h.run.Distinct(fmt.Sprintf("%s|%v|%v|%s|%s|%s|%s|%s|%s|%s|%d|%v", h.rn, h.alias, enabled, ref.ch.via, h.cl[owner].Auth, rel, pauth, cr.kind, tokKind, scopeKind, pos, h.dereg[owner]))
 
 	if !success {
 		// nothing may have been issued
@@ -574,6 +598,20 @@ func (h *hist) refresh() {
 		if t != nil && liveBefore && !h.w.Store.RefreshLive(t.s) {
 			h.run.Count("outcome", "grey_token_burned_by_refused_request")
 		}
+		// a refused request must not have widened the grant the storage holds for the presented token
+		// (a storage whose request object aliases the stored token is written to by SetCurrentScopes)
+		if t != nil {
+			rec, _ := h.w.Store.RefreshRecord(t.s)
+			switch {
+			case slices.Equal(rec.Scopes, storedBefore):
+				h.run.Count("stored_grant_after_refusal", "unchanged")
+			case subset(noEmpty(rec.Scopes), storedBefore):
+				h.run.Count("stored_grant_after_refusal", "grey_narrowed")
+			default:
+				h.run.Count("stored_grant_after_refusal", "widened")
+				h.flag("refused-request-changed-stored-grant", fmt.Sprintf("the request was refused (%s) but the grant the storage holds for the presented refresh token changed from %v to %v", resp.OAuthError(), storedBefore, rec.Scopes))
+			}
+		}
 	}
 
 	if len(refuse) > 0 {
@@ -584,6 +622,12 @@ func (h *hist) refresh() {
 			return
 		}
 		h.run.Count("refusal_error", refuse[0]+" -> "+resp.OAuthError())
+		if t != nil && t.live && len(refuse) == 1 && refuse[0] == "scope-not-granted" {
+			t.scopeRefused = true
+			if r.IntN(10) < 7 {
+				h.follow = t
+			}
+		}
 		if t != nil {
 			if t.live {
 				t.failed = true
@@ -637,6 +681,14 @@ func (h *hist) refresh() {
 		return
 	}
 	h.run.Count("outcome", "success")
+	if t.scopeRefused {
+		h.run.Count("outcome", "success_after_scope_refusal_of_same_token")
+		h.run.Observed("scope-refused-then-success:" + h.rn)
+		if h.alias {
+			h.run.Observed("aliasing-storage:scope-refused-then-success:" + h.rn)
+			h.sample("aliasing-storage:refused-superset-then-plain-refresh")
+		}
+	}
 	h.run.Count("success_by", owner+"/"+cr.kind+"/"+scopeKind)
 	h.run.Observed("success:" + h.rn)
 	switch h.cl[owner].Auth {
@@ -893,17 +945,23 @@ func runHistory(run *ev.Run, caseIdx int, router int) {
 	if h.allOff {
 		run.Observed("history-with-refresh-disabled:" + h.rn)
 	}
+	if h.alias {
+		run.Count("storage_mode", "request-aliases-stored-token")
+	} else {
+		run.Count("storage_mode", "request-is-a-copy")
+	}
 }
 
 func main() {
 	run := ev.Start("C07", "exploration")
-	run.SetRule("random histories (8-31 ops) on a fresh world per history and router: original grants (code exchange / device flow with offline_access, 6 scope sets, 2 users, per-chain audience and auth_time) for clients {web, web2(JWT access tokens) basic; post; native public+PKCE; jwt private_key_jwt; dev basic device; devpub public device(JWT)}, then refresh requests presenter {owner, other registered client, svc without the grant, unknown client} x credential {ok, wrong secret/key, none, other method, superfluous secret, valid credential + owner's client_id} x token {current, rotated-away, expired, unknown: garbage/near-miss/access token/missing/suffix} x scope list {absent, empty, equal, permuted, subset, subset with duplicate, superset head/tail, regrow of a narrowed-away scope, disjoint, case variant, affix variant, malformed spacing} x provider refresh support {on, off (same storage), off for the whole history} x client re-registered without the refresh grant; every refresh request is one evaluation; distinct = distinct vectors (router, enabled, grant kind, owner auth method, own/foreign, presenter auth method, credential kind, token kind, scope kind, chain position 0..3+, owner deregistered)")
+	run.SetRule("random histories (8-31 ops) on a fresh world per history and router: original grants (code exchange / device flow with offline_access, 6 scope sets, 2 users, per-chain audience and auth_time) for clients {web, web2(JWT access tokens) basic; post; native public+PKCE; jwt private_key_jwt; dev basic device; devpub public device(JWT)}, then refresh requests presenter {owner, other registered client, svc without the grant, unknown client} x credential {ok, wrong secret/key, none, other method, superfluous secret, valid credential + owner's client_id} x token {current, rotated-away, expired, unknown: garbage/near-miss/access token/missing/suffix} x scope list {absent, empty, equal, permuted, subset, subset with duplicate, superset head/tail, regrow of a narrowed-away scope, disjoint, case variant, affix variant, malformed spacing} x storage {the RefreshTokenRequest is a copy; it aliases the stored token (vstore.AliasRefresh, 1/3 of histories)} x provider refresh support {on, off (same storage), off for the whole history} x follow-up {70% of scope-only refusals are followed by a plain request of the owner with the same token} x client re-registered without the refresh grant; every refresh request is one evaluation; distinct = distinct vectors (router, aliasing storage, enabled, grant kind, owner auth method, own/foreign, presenter auth method, credential kind, token kind, scope kind, chain position 0..3+, owner deregistered)")
 	run.Assume(
 		"vstore policy: refresh tokens rotate (CreateAccessAndRefreshTokens kills the presented token), TokenRequestByRefreshToken fails for unknown, rotated and expired tokens, and the new refresh token records the scopes of the token request it was created from — 'granted' in the chain condition is that record",
 		"after a refused request presenting a live token, later success for that token is grey (burning on failure would be legal); after a replay of a dead token of a chain, later success anywhere in the chain is grey (revoking the family would be legal)",
 		"success is demanded only for the token's own, plainly configured client with its one registered credential and an absent / equal / permuted / subset scope list; duplicates, an empty scope parameter, malformed spacing, other-method or superfluous credentials are grey for success and strict for refusal",
 		"a public client counts as identified when its client_id is named anywhere in the request",
-		"original grants are taken as the storage recorded them (their correctness is C04/C06/C16)")
+		"original grants are taken as the storage recorded them (their correctness is C04/C06/C16)",
+		"in one third of the histories the storage hands out a RefreshTokenRequest that aliases the stored token (SetCurrentScopes writes through, as in the repository's example storage); after every refused request the scopes the storage holds for the presented token are compared with those before it: widened -> violation, only narrowed -> grey")
 	n := run.N(2000, 40000)
 	if rc := run.ReplayCase(); rc >= 0 {
 		runHistory(run, int(rc), 0)
@@ -912,7 +970,7 @@ func main() {
 	}
 	var mand []string
 	for _, rn := range opdrv.RouterNames {
-		for _, m := range []string{"success", "success-public", "success-private_key_jwt", "refused-foreign-authenticated", "refused-unauthenticated", "refused-invalid_scope", "refused-regrow", "refused-replay", "refused-disabled", "refused-deregistered", "chain>=4", "narrowed-twice", "history-with-refresh-disabled"} {
+		for _, m := range []string{"success", "success-public", "success-private_key_jwt", "refused-foreign-authenticated", "refused-unauthenticated", "refused-invalid_scope", "refused-regrow", "refused-replay", "refused-disabled", "refused-deregistered", "chain>=4", "narrowed-twice", "history-with-refresh-disabled", "scope-refused-then-success", "aliasing-storage:scope-refused-then-success"} {
 			mand = append(mand, m+":"+rn)
 		}
 	}
